@@ -728,7 +728,9 @@ class Interp:
         if a.buf != b.buf:
             return self.typed_unknown(n, st)
         if a.exact is not None and b.exact is not None:
-            return VInt(b.exact - a.exact)
+            res = VInt(b.exact - a.exact)
+            self._note_extra(res, st, n)
+            return res
         # make the unknown side exact through a fresh symbol and write it back
         # to the variable it came from
         if a.exact is not None and b.exact is None:
@@ -743,8 +745,24 @@ class Interp:
             p = self.path_of(bn, st)
             if p is not None and p in st.vars:
                 st.vars[p] = nb
-            return VInt(LF.sym(R) - a.exact)
+            res = VInt(LF.sym(R) - a.exact)
+            self._note_extra(res, st, n)
+            return res
         return self.typed_unknown(n, st)
+
+    def _note_extra(self, res, st, n):
+        """Remember the range of `end - ptr` inside decode_extra (how many trailing bytes a decoder
+        can ever hand to its extra_data member): used by C03-S8."""
+        if self.stack and self.stack[-1].name == 'decode_extra':
+            if not hasattr(self, 'extra_rem'):
+                self.extra_rem = []
+            lo, hi = st.lo(res.lf), st.hi(res.lf)
+            try:
+                if st.nonneg(res.lf) and st.nonneg(LF(0) - res.lf):
+                    lo = hi = 0
+            except Exception:
+                pass
+            self.extra_rem.append((lo, hi, locstr(n)))
 
     # ---- assignment -----------------------------------------------------------
     def assign(self, n, lhs, rhs, st):
